@@ -303,11 +303,15 @@ type Event struct {
 	syms []string
 	Init bool // assumed while executing package initialisers: kept only when relevant
 	Cut  bool // loop cut marker: older quantified assumptions are dropped
+	Keep bool   // survives loop cuts (frame facts about a heap version: valid for the rest of the path)
 	Tag  string // loop invariant this assumption came from ("<fn>#L<ord>/inv#<j>")
 }
 
 // curTag tags the assumptions made while a loop invariant is being assumed.
 var curTag string
+
+// curKeep marks the assumptions being made as surviving later loop cuts.
+var curKeep bool
 
 var inInitPhase bool
 
@@ -453,7 +457,7 @@ func (c *Check) buildBody(level int) string {
 				continue
 			}
 			if e.Def == "" && strings.Contains(e.Text, "(forall ") {
-				if cs {
+				if cs && !e.Keep {
 					continue
 				}
 				quant = append(quant, i)
@@ -489,7 +493,7 @@ func (c *Check) buildBody(level int) string {
 			cutSeen = true
 			continue
 		}
-		if cutSeen && e.Def == "" && strings.Contains(e.Text, "(forall ") {
+		if cutSeen && e.Def == "" && strings.Contains(e.Text, "(forall ") && !e.Keep {
 			continue
 		}
 		if dropQ[i] {
